@@ -33,6 +33,7 @@ func runSessions(r *eng.Run, scripts []*script, stick, segMode int) ([]*sessResu
 	if err != nil {
 		r.Internalf("scheduler: %v", err)
 	}
+	SharedFlateDialer = NewSharedDialer()
 	res := make([]*sessResult, len(scripts))
 	for i, sc := range scripts {
 		i, sc := i, sc
@@ -157,13 +158,16 @@ func checkPoolFaults(r *eng.Run, when string) {
 }
 
 func trimReport(s string) string {
-	lines := strings.Split(s, "\n")
+	lines := strings.Split(strings.TrimSpace(s), "\n")
 	var keep []string
 	for _, l := range lines {
-		if strings.Contains(l, "gobwas/ws") || strings.HasPrefix(l, "WARNING") || strings.Contains(l, " by goroutine") || strings.Contains(l, "Previous") {
-			keep = append(keep, strings.TrimSpace(l))
+		l = strings.TrimRight(l, " ")
+		if l == "" {
+			continue
 		}
-		if len(keep) > 14 {
+		keep = append(keep, l)
+		if len(keep) >= 60 {
+			keep = append(keep, "...")
 			break
 		}
 	}
